@@ -53,17 +53,17 @@ PSEUDOS = [':any-link', ':empty', ':first-child', ':first-of-type', ':in-range',
            ':nth-of-type(-1000000007n+99999999999999999999)', ':nth-last-child(n+123456789012)', ':nth-child(-2n+30000001 of p)']
 HOSTILE = {
     'type': ['', 'TEXT', 'week', 'Week', 'date', 'month', 'time', 'datetime-local', 'number', 'range', 'radio', 'checkbox', 'submit',
-             'x' * 300, 'tel', 'hidden', ' date', 'date ', 'é', '\x00'],
+             'x' * 300, 'tel', 'hidden', ' date', 'date ', 'é', '\x00', 'te\udc9dxt', '\ud800', 'wee\u212a'],
     'min': ['', '1', '-', '.', '1.', '1e999', '0' * 5000, '9' * 5000, '9' * 5000 + '-01-01', '9' * 5000 + '-W01', '0000-01-01', '0000-W01',
             '0999-W01', '10000-W01', '10000-01-01', '2019-W00', '2019-W53', '2019-W54', '2019-13', '2019-00', '24:00', '23:60', '-1:00',
             '2019-02-30', '2019-02-29T25:00', '2019-01-01T', 'T10:00', '1' * 4300, '1' * 4301, '0x10', '١٢', '１２', ' 5', '5 ', '+5', 'NaN',
             'inf', '-inf', '1_0', '\x00', '2019-W1', '2019-1-1', '99999999999999999999-12', 'W01', '-0001-01-01'],
-    'dir': ['', 'LTR', 'Rtl', 'auto', 'AUTO', 'x', ' ltr', 'ltr rtl', '\x00'],
+    'dir': ['', 'LTR', 'Rtl', 'auto', 'AUTO', 'x', ' ltr', 'ltr rtl', '\x00', 'rt\udfffl', '\ud83d'],
     'lang': ['', 'en', 'EN-us', '*', '-', 'en--US', 'a-' * 300, '-en', 'en-', 'x' * 3000, ' ', '\x00', 'é'],
     'name': ['', 'r', 'R', ' ', 'x' * 1000, '\x00'],
     'placeholder': ['', ' ', 'p', '\n'],
     'contenteditable': ['', 'true', 'TRUE', 'false', 'plaintext-only', 'x'],
-    'http-equiv': ['content-language', 'Content-Language', '', 'refresh', 'x'],
+    'http-equiv': ['content-language', 'Content-Language', '', 'refresh', 'x', 'content-langua\udc00ge'],
     'content': ['', 'en', 'en, de', ' ', 'x' * 2000],
     'value': ['', '5', 'x', 'אב', '\U0001f600', '2019-W53', '9' * 5000],
     'checked': ['', 'checked', 'false'], 'disabled': ['', 'disabled'], 'required': [''], 'readonly': [''], 'href': ['', 'u'],
